@@ -91,6 +91,9 @@ func alloc(k *chain.Keys) chain.GenesisAlloc {
 		}
 	}
 	add(multisigUC(k).UnlockHash(), 2)
+	// 100 of the siafunds move to a 2-of-3 multisig address (a v1-signed address that is neither developer address)
+	g.SF[0].Value -= 100
+	g.SF = append(g.SF, types.SiafundOutput{Value: 100, Address: multisigUC(k).UnlockHash()})
 	add(wideUC(k).UnlockHash(), 2)
 	add(lockedUC(k).UnlockHash(), 2)
 	add(threshPolicy(k).Address(), 2)
@@ -294,6 +297,23 @@ func templates(k *chain.Keys) []template {
 			}
 			u := w.UseV1SF(p, 1)
 			return u, true
+		}, none},
+		{"v1 siafund spend of an output held by a 2-of-3 multisig address", func(w *chain.World) (chain.Use, bool) {
+			if w.ChildHeight() >= w.Net.HardforkV2.RequireHeight {
+				return chain.Use{}, false
+			}
+			uc := multisigUC(k)
+			for _, id := range chain.SortedIDs(w.Store.SF) {
+				p := w.Store.SF[types.SiafundOutputID(id)]
+				if p.SiafundOutput.Address != uc.UnlockHash() {
+					continue
+				}
+				t := types.Transaction{SiafundInputs: []types.SiafundInput{{ParentID: p.ID, UnlockConditions: uc, ClaimAddress: k.Addr(chain.AddrV1)}},
+					SiafundOutputs: []types.SiafundOutput{{Value: p.SiafundOutput.Value, Address: uc.UnlockHash()}}, ArbitraryData: [][]byte{[]byte("memo"), []byte("second memo")}}
+				signV1With(w, &t, types.Hash256(p.ID), []int{0, 2}, []uint64{0, 2}, whole, 0)
+				return chain.Use{Name: "v1", V1: &t, SuppSF: []types.SiafundElement{p.Copy()}}, true
+			}
+			return chain.Use{}, false
 		}, none},
 		{"v1 partial signatures covering only the SECOND element of every list", func(w *chain.World) (chain.Use, bool) {
 			// covered-field lists that are not the identity prefix [0..m-1]: siacoin outputs [1], siafund outputs [1], miner
@@ -876,6 +896,23 @@ func probeTemplate(c *vf.Ctx, w *chain.World, tp template) {
 			signV1With(w, t, types.Hash256(r.ParentID), []int{3}, []uint64{0}, types.CoveredFields{WholeTransaction: true}, 0)
 			check("revision authorised only by the unlock conditions it proposes")
 			*r, t.Signatures = oldRev, oldSigs
+		}
+		for i := range t.SiafundInputs {
+			// other unlock conditions than the parent's, signed by their own key: those of key 2 (an outsider) and those
+			// of the NEW developer address (key 0), whose special right covers outputs of the OLD developer address only
+			oin, osigs := t.SiafundInputs[i], t.Signatures
+			for _, ki := range []int{2, 0} {
+				uc := w.Keys.StdUC(ki)
+				parent, known := w.Store.SF[oin.ParentID]
+				if uc.UnlockHash() == oin.UnlockConditions.UnlockHash() || (known && parent.SiafundOutput.Address == w.Net.HardforkDevAddr.OldAddress && uc.UnlockHash() == w.Net.HardforkDevAddr.NewAddress) {
+					continue // the parent's own conditions, or the legitimate override
+				}
+				t.SiafundInputs[i].UnlockConditions = uc
+				t.Signatures = nil
+				signV1With(w, t, types.Hash256(oin.ParentID), []int{ki}, []uint64{0}, types.CoveredFields{WholeTransaction: true}, 0)
+				check(fmt.Sprintf("siafund input %d: unlock conditions of key %d substituted and signed by that key", i, ki))
+				t.SiafundInputs[i], t.Signatures = oin, osigs
+			}
 		}
 		if len(t.Signatures) > 0 {
 			old := append([]types.TransactionSignature(nil), t.Signatures...)
